@@ -102,6 +102,9 @@ ERR_PATTERNS = [
 
 def classify_error(exc):
     msg = str(exc)
+    # `hierarchy[-1]` on an empty hierarchy (validator, get_taxonomy_tree)
+    if isinstance(exc, IndexError) and 'list index out of range' in msg:
+        return 'emptyHierarchy'
     for pat, name in ERR_PATTERNS:
         if pat in msg:
             return name
@@ -283,4 +286,147 @@ def leaf_ancestors(tt):
     for n in tt.nodes_at_level(leaf):
         d = dict(tt.parents(leaf, n))
         out[n] = d
+    return out
+
+
+# --------------------------------------------------------------------------
+# malformed stream: classes gen.malformed_variants lacks, and the exhaustive
+# (every position) enumeration of one-edit variants used on small shapes
+# --------------------------------------------------------------------------
+
+def extra_malformed_variants(rng, tree):
+    """one-edit variants not produced by gen.malformed_variants:
+    (label, tree) pairs; labels ending in '_valid' must still be accepted"""
+    out = []
+    h = tree['hierarchy']
+
+    def cp():
+        return copy.deepcopy(tree)
+
+    # hierarchy emptied (validator indexes hierarchy[-1])
+    t = {'hierarchy': []}
+    out.append(('empty_hierarchy', t))
+    t = cp(); t['hierarchy'] = []; out.append(('empty_hierarchy_with_levels', t))
+    if len(h) > 1:
+        i = rng.randrange(len(h) - 1)
+        t = cp()
+        hh = list(h); hh[i], hh[i + 1] = hh[i + 1], hh[i]
+        t['hierarchy'] = hh
+        out.append(('hierarchy_swapped', t))
+        # a parent lists a node of its own level
+        pl = h[i]
+        ps = list(tree[pl].keys())
+        if ps:
+            t = cp()
+            p = rng.choice(ps)
+            t[pl][p] = list(t[pl][p]) + [rng.choice(ps)]
+            out.append(('own_level_child', t))
+        # repeated child, inserted at a random position (not only appended)
+        ps2 = [p for p in ps if len(tree[pl][p]) > 0]
+        if ps2:
+            t = cp()
+            p = rng.choice(ps2)
+            kids = list(t[pl][p])
+            kids.insert(rng.randrange(len(kids) + 1), rng.choice(kids))
+            t[pl][p] = kids
+            out.append(('repeated_child', t))
+        # second parent listed FIRST in dict order (new parent key moved to front)
+        if len(ps) > 1:
+            p1, p2 = rng.sample(ps, 2)
+            if tree[pl][p1]:
+                t = cp()
+                c = rng.choice(list(t[pl][p1]))
+                new = {p2: [c] + list(t[pl][p2])}
+                for k, v in t[pl].items():
+                    if k != p2:
+                        new[k] = v
+                t[pl] = new
+                out.append(('two_parents', t))
+        # a top-level node without children (accepted: nothing requires children)
+        t = cp()
+        t[h[0]]['lonely_top'] = []
+        out.append(('childless_top_valid', t))
+    # ignorable keys
+    t = cp()
+    t['name_mapper'] = {}
+    t['hierarchy_mapper'] = {}
+    out.append(('ignorable_keys_valid', t))
+    # duplicate row inside one leaf
+    leaf = h[-1]
+    with_rows = [k for k in tree[leaf] if len(tree[leaf][k]) > 0]
+    if with_rows:
+        t = cp()
+        a = rng.choice(with_rows)
+        t[leaf][a] = list(t[leaf][a]) + [t[leaf][a][-1]]
+        out.append(('dup_row_same_leaf', t))
+    return out
+
+
+def all_one_edit_variants(tree):
+    """EVERY one-edit corruption (of the classes below) at EVERY position of a
+    valid tree; deterministic.  (label, tree) pairs."""
+    out = []
+    h = tree['hierarchy']
+
+    def cp():
+        return copy.deepcopy(tree)
+
+    t = cp(); t.pop('hierarchy'); out.append(('no_hierarchy', t))
+    t = cp(); t['stray'] = {}; out.append(('stray_key', t))
+    t = cp(); t['hierarchy'] = h + ['ghost']; out.append(('ghost_level', t))
+    t = cp(); t['hierarchy'] = ['ghost'] + h; out.append(('ghost_level', t))
+    t = cp(); t['hierarchy'] = []; out.append(('empty_hierarchy_with_levels', t))
+    for i in range(len(h)):
+        if len(h) > 1:
+            t = cp(); t['hierarchy'] = h[:i] + h[i + 1:]
+            out.append(('unlisted_level', t))
+            t = cp(); t.pop(h[i]); out.append(('missing_level_dict', t))
+        if i + 1 < len(h):
+            t = cp()
+            hh = list(h); hh[i], hh[i + 1] = hh[i + 1], hh[i]
+            t['hierarchy'] = hh
+            out.append(('hierarchy_swapped', t))
+        for k in tree[h[i]]:
+            t = cp()
+            new = {}
+            for kk, vv in t[h[i]].items():
+                new[7 if kk == k else kk] = vv
+            t[h[i]] = new
+            out.append(('non_str_node', t))
+    for i in range(len(h) - 1):
+        pl, cl = h[i], h[i + 1]
+        parents = list(tree[pl].keys())
+        kids = list(tree[cl].keys())
+        for c in kids:
+            t = cp(); t[cl].pop(c); out.append(('missing_child_key', t))
+        t = cp(); t[cl]['orphan_zz'] = []; out.append(('orphan', t))
+        for p in parents:
+            for j, c in enumerate(tree[pl][p]):
+                t = cp()
+                t[pl][p] = list(t[pl][p]) + [c]
+                out.append(('repeated_child', t))
+                t = cp()
+                kk = list(t[pl][p]); kk.insert(0, c); t[pl][p] = kk
+                out.append(('repeated_child', t))
+                for p2 in parents:
+                    if p2 != p:
+                        t = cp()
+                        t[pl][p2] = list(t[pl][p2]) + [c]
+                        out.append(('two_parents', t))
+            t = cp()
+            t[pl][p] = list(t[pl][p]) + [p]
+            out.append(('own_level_child', t))
+            t = cp()
+            t[pl][p] = list(t[pl][p]) + ['nowhere_zz']
+            out.append(('missing_child_key', t))
+    leaf = h[-1]
+    for a in tree[leaf]:
+        for r in tree[leaf][a]:
+            for b in tree[leaf]:
+                t = cp()
+                t[leaf][b] = list(t[leaf][b]) + [r]
+                out.append(('dup_row', t))
+    if len(h) > 1:
+        t = cp(); t[h[0]]['lonely_top'] = []
+        out.append(('childless_top_valid', t))
     return out
